@@ -61,7 +61,9 @@ def run(ctx, clauses=CLAUSES, prop_note=None):
     big = []
     for _ in range(900 if thorough else 110):
         big.append(sc.random_sinput(rng, FAM, 5, 4, 4, min_obj=4))
-    e2 = tiny[::2] + mid if not thorough else tiny + mid
+    # three object leaves on three species leaves: every leaf assignment x every tuple of leaf orders
+    tiny3 = list(sc.small_inputs(FAM, gen.bin_shapes(3), gen.bin_shapes(3), LEAF_SYNS, sc.SUPER_COSTS[:1]))
+    e2 = (tiny[::2] + mid + tiny3[ctx.seed % 3::3]) if not thorough else tiny + mid + tiny3
     cases = [(FAM, inp, sc.CALLS) for inp in list(dict.fromkeys(e2 + big))]
     results = sc.run_all(cases)
     ctx.stage("solver runs")
